@@ -7,7 +7,10 @@
 //! timeout + slack.
 //!
 //! case: (bl API OP CTX RX CAP PREFILL TIMEOUT_MS)
-//!   API ::= sync | tokio      OP ::= flush | send      CTX ::= plain | mt | ct      RX ::= live | stalled | gone
+//!   API ::= sync | tokio | async   OP ::= flush | send   CTX ::= plain | mt | ct   RX ::= live | stalled | gone | hangup
+//!   API = async awaits `emit_batcher::tokio::{flush, send}` inside a current-thread runtime (CTX = ct); `flush` under
+//!   a paused clock (virtual time). RX = hangup (async flush only): the receiver takes the batch and the watcher,
+//!   never finishes, and is torn down after 10 ms — the oneshot hangs up and the flush resolves `true`.
 //!   PREFILL items are `send`-ed before the call; the call itself sends item 999 (OP = send).
 //! output: flush → true | false | panic ;  send → ok | err(ITEM) | err(noitem) | panic
 //! Only deterministic combinations are generated: a live receiver gets a timeout of 3 s (so the outcome does not
@@ -73,6 +76,9 @@ const SLACK: Duration = Duration::from_millis(1500);
 enum Api {
     Sync,
     Tokio,
+    /// the async entry points `emit_batcher::tokio::{flush, send}` awaited inside a current-thread runtime whose
+    /// clock is paused (virtual time, deterministic)
+    Async,
 }
 #[derive(Clone, Copy, PartialEq, Debug)]
 enum OpK {
@@ -90,6 +96,9 @@ enum Rx {
     Live,
     Stalled,
     Gone,
+    /// (async flush only) the receiver takes the batch together with the flush watcher, never finishes it, and is
+    /// torn down 10 ms later: the oneshot hangs up
+    Hangup,
 }
 
 struct Case {
@@ -116,6 +125,7 @@ fn parse(line: &str) -> Option<Case> {
         api: match a[0].as_atom()? {
             "sync" => Api::Sync,
             "tokio" => Api::Tokio,
+            "async" => Api::Async,
             _ => return None,
         },
         op: match a[1].as_atom()? {
@@ -133,6 +143,7 @@ fn parse(line: &str) -> Option<Case> {
             "live" => Rx::Live,
             "stalled" => Rx::Stalled,
             "gone" => Rx::Gone,
+            "hangup" => Rx::Hangup,
             _ => return None,
         },
         cap,
@@ -155,6 +166,7 @@ fn call(api: Api, op: OpK, sender: &Sender<Vec<u64>>, timeout: Duration) -> Out 
         (Api::Tokio, OpK::Flush) => Out::Flush(emit_batcher::tokio::blocking_flush(sender, timeout)),
         (Api::Sync, OpK::Send) => send_out(emit_batcher::sync::blocking_send(sender, 999, timeout)),
         (Api::Tokio, OpK::Send) => send_out(emit_batcher::tokio::blocking_send(sender, 999, timeout)),
+        (Api::Async, _) => unreachable!(),
     }
 }
 
@@ -169,6 +181,12 @@ fn run_blocking(line: &str) -> String {
     let Some(c) = parse(line) else {
         return "bad-case".into();
     };
+    if c.api == Api::Async {
+        return run_async(&c);
+    }
+    if c.rx == Rx::Hangup {
+        return "bad-case".into();
+    }
     let (sender, receiver): (Sender<Vec<u64>>, Receiver<Vec<u64>>) = emit_batcher::bounded(c.cap);
     // the receiver: dropped, kept but never run, or started right before the call (after the prefill)
     let mut receiver = Some(receiver);
@@ -188,6 +206,7 @@ fn run_blocking(line: &str) -> String {
             Api::Tokio => {
                 emit_batcher::tokio::spawn("hbatcher_rx", receiver, |_batch: Vec<u64>| async move { Ok(()) }).ok()
             }
+            Api::Async => unreachable!(),
         };
     }
     let started = Instant::now();
@@ -247,6 +266,93 @@ fn run_blocking(line: &str) -> String {
     s
 }
 
+/// The async entry points under a paused tokio clock: everything runs on one thread in virtual time, so the
+/// outcome and the (virtual) time of return are deterministic.
+fn run_async(c: &Case) -> String {
+    if c.ctx != Ctx::Ct || (c.rx == Rx::Hangup && c.op != OpK::Flush) {
+        return "bad-case".into();
+    }
+    // `flush` runs in virtual time (paused clock: deterministic, also for the hang-up scenario). `send` measures
+    // its timeout with std::time::Instant (tokio.rs:101), which a paused clock does not move, so it runs in real time.
+    let paused = c.op == OpK::Flush;
+    let rt = tokio::runtime::Builder::new_current_thread().enable_all().start_paused(paused).build().unwrap();
+    let (cap, prefill, rxk, op) = (c.cap, c.prefill, c.rx, c.op);
+    let timeout = Duration::from_millis(c.timeout_ms);
+    let res = hcommon::catch(|| {
+        rt.block_on(async move {
+            let (sender, receiver): (Sender<Vec<u64>>, Receiver<Vec<u64>>) = emit_batcher::bounded(cap);
+            let mut receiver = Some(receiver);
+            if rxk == Rx::Gone {
+                drop(receiver.take());
+            }
+            for i in 0..prefill {
+                sender.send(i as u64 + 1);
+            }
+            match rxk {
+                Rx::Live => {
+                    let r = receiver.take().unwrap();
+                    tokio::spawn(r.exec(|d| tokio::time::sleep(d), |_b: Vec<u64>| async move { Ok(()) }));
+                }
+                Rx::Hangup => {
+                    let r = receiver.take().unwrap();
+                    let h = tokio::spawn(r.exec(
+                        |d| tokio::time::sleep(d),
+                        |_b: Vec<u64>| std::future::pending::<Result<(), BatchError<Vec<u64>>>>(),
+                    ));
+                    tokio::spawn(async move {
+                        tokio::time::sleep(Duration::from_millis(10)).await;
+                        h.abort();
+                    });
+                }
+                _ => {}
+            }
+            let t0 = tokio::time::Instant::now();
+            let out = match op {
+                OpK::Flush => Out::Flush(emit_batcher::tokio::flush(&sender, timeout).await),
+                OpK::Send => send_out(emit_batcher::tokio::send(&sender, 999, timeout).await),
+            };
+            let virt = t0.elapsed();
+            drop(receiver);
+            (out, virt)
+        })
+    });
+    let (out, virt) = res.unwrap_or((Out::Panic, Duration::ZERO));
+    let mut fails: Vec<&str> = Vec::new();
+    if out == Out::Panic {
+        fails.push("c08-panic");
+    }
+    if virt > timeout + if paused { Duration::from_millis(2) } else { SLACK } {
+        fails.push("c08-timeout");
+    }
+    if out == Out::Flush(true) && c.rx == Rx::Stalled && c.prefill > 0 {
+        fails.push("c07-blocking-true");
+    }
+    if out == Out::SendErr(None) && c.rx != Rx::Gone {
+        fails.push("c09-handback");
+    }
+    if let Out::SendErr(Some(x)) = out {
+        if x != 999 {
+            fails.push("c09-handback");
+        }
+    }
+    render(out, &fails)
+}
+
+fn render(out: Out, fails: &[&str]) -> String {
+    let mut s = match out {
+        Out::Flush(b) => format!("{}", b),
+        Out::SendOk => "ok".into(),
+        Out::SendErr(Some(x)) => format!("err({})", x),
+        Out::SendErr(None) => "err(noitem)".into(),
+        Out::Panic => "panic".into(),
+    };
+    if !fails.is_empty() {
+        s.push_str("\tFAIL:");
+        s.push_str(&fails.join("+"));
+    }
+    s
+}
+
 fn gen_blocking(rng: &mut Rng, tier: Tier, n: usize, ops: &[&str]) -> Vec<String> {
     let mut all = Vec::new();
     for api in ["sync", "tokio"] {
@@ -259,6 +365,29 @@ fn gen_blocking(rng: &mut Rng, tier: Tier, n: usize, ops: &[&str]) -> Vec<String
                             all.push(format!("(bl {} {} {} {} {} {} {})", api, op, ctx, rx, cap, prefill, t));
                         }
                     }
+                }
+            }
+        }
+    }
+    // the async entry points (virtual time: any timeout is cheap)
+    for op in ops.iter().copied() {
+        for rx in ["live", "stalled", "gone", "hangup"] {
+            if rx == "hangup" && op != "flush" {
+                continue;
+            }
+            for (cap, prefill) in [(1usize, 0usize), (1, 1), (2, 1), (2, 2), (3, 5)] {
+                if rx == "hangup" && prefill == 0 {
+                    continue; // nothing to take: the watcher fires at once
+                }
+                let timeouts: &[u64] = if rx == "live" {
+                    &[3000]
+                } else if op == "flush" {
+                    &[0, 30, 20000]
+                } else {
+                    &[0, 30]
+                };
+                for t in timeouts {
+                    all.push(format!("(bl async {} ct {} {} {} {})", op, rx, cap, prefill, t));
                 }
             }
         }
